@@ -147,10 +147,22 @@ func (c *TreeCacheClientImpl) ReadUpdatesOwner(ctx context.Context, owner string
 
 	ownerPaths := c.getPathsOfOwner(ctx, owner)
 
-	return c.Read(ctx, &cache.Opts{
-		Store: cachepb.Store_INTENDED,
-		Owner: owner,
+	// the cache honours the owner only together with a specific priority, with priority 0 it
+	// returns just the highest priority entries per path whoever owns them. Hence read all
+	// priorities of the owners paths and keep the entries of the owner.
+	upds := c.Read(ctx, &cache.Opts{
+		Store:    cachepb.Store_INTENDED,
+		Owner:    owner,
+		Priority: -1,
 	}, ownerPaths.paths.ToStringSlice())
+
+	result := make(UpdateSlice, 0, len(upds))
+	for _, u := range upds {
+		if u.Owner() == owner {
+			result = append(result, u)
+		}
+	}
+	return result
 }
 
 func (c *TreeCacheClientImpl) getPathsOfOwner(ctx context.Context, owner string) *PathSet {
